@@ -263,7 +263,7 @@ type c20TxCase struct {
 }
 
 func genC20Tx(t *rapid.T) c20TxCase {
-	w := genEvmWorld(t, worldCfg{Cpc: true})
+	w := genEvmWorld(t, worldCfg{Cpc: true, ModAddrs: true})
 	w.Deployers = []int{0}
 	cs := c20TxCase{World: w}
 	for b, nb := 0, rapid.IntRange(1, 3).Draw(t, "nblocks"); b < nb; b++ {
@@ -336,6 +336,28 @@ func runC20Tx(cs c20TxCase) *Outcome {
 		c20Alive(o, c, fmt.Sprintf("block %d FinalizeBlock", bi))
 		if len(res.TxResults) != len(txs) {
 			o.dev("", "block %d: %d results for %d txs", bi, len(res.TxResults), len(txs))
+		}
+		// what one block can make a node do is bounded by the block gas limit: an Ethereum tx whose own gas limit exceeds it
+		// can never fit into a block, and if it is admitted anyway the EVM runs it up to that (arbitrarily large) limit -
+		// a looping contract then costs the sender a fee and every node hours of CPU and tens of GB of cache layers
+		if cs.World.MaxGas > 0 {
+			for i, tx := range txs {
+				if !c.AnteRan[i] || c.AnteErr[i] != nil {
+					continue
+				}
+				func() {
+					defer func() { _ = recover() }()
+					dtx, err := c.TxCfg.TxDecoder()(tx)
+					if err != nil || len(dtx.GetMsgs()) != 1 {
+						return
+					}
+					if em, ok := dtx.GetMsgs()[0].(*evmtypes.MsgEthereumTx); ok {
+						if g := em.AsTransaction().Gas(); g > uint64(cs.World.MaxGas) {
+							o.dev("", "block %d tx %d: an Ethereum tx with gas limit %d was admitted and executed although the block max gas is %d", bi, i, g, cs.World.MaxGas)
+						}
+					}
+				}()
+			}
 		}
 		// the committed block then reaches the node's EVM indexer service, a goroutine without recovery: whatever the
 		// proposer put into the block, indexing it must return
